@@ -15,3 +15,63 @@ Lemma push_prog_ok : push_prog = expected_push_prog. Proof. reflexivity. Qed.
 Lemma pull_prog_ok : pull_prog = expected_pull_prog. Proof. reflexivity. Qed.
 Lemma close_prog_ok : close_prog = expected_close_prog. Proof. reflexivity. Qed.
 Lemma ll_progs_ok : ll_progs = expected_ll. Proof. reflexivity. Qed.
+
+(* ------------------------------------------------------------------ reachability *)
+Definition step (P : progs) (s s' : state) : Prop := exists i c, exec P i c s = Some s'.
+Inductive reach (P : progs) (s0 : state) : state -> Prop :=
+| reach_refl : reach P s0 s0
+| reach_step s s' : reach P s0 s -> step P s s' -> reach P s0 s'.
+Definition stuck (P : progs) (s : state) : Prop := forall i c, exec P i c s = None.
+
+(* ------------------------------------------------------------------ list plumbing *)
+Lemma nth_upd_eq {A} : forall (l : list A) i x t, nth_error l i = Some t -> nth_error (upd l i x) i = Some x.
+Proof. induction l as [|h l IH]; intros [|i] x t H; simpl in *; try discriminate; eauto. Qed.
+Lemma nth_upd_ne {A} : forall (l : list A) i j x, i <> j -> nth_error (upd l i x) j = nth_error l j.
+Proof. induction l as [|h l IH]; intros [|i] [|j] x H; simpl; auto; try lia; apply IH; lia. Qed.
+Lemma upd_length {A} : forall (l : list A) i x, length (upd l i x) = length l.
+Proof. induction l as [|h l IH]; intros [|i] x; simpl; auto. Qed.
+Lemma nth_some_lt {A} (l : list A) i t : nth_error l i = Some t -> i < length l.
+Proof. intros H. apply nth_error_Some. congruence. Qed.
+
+Fixpoint sumf (f : thread -> nat) (l : list thread) : nat :=
+  match l with [] => 0 | t :: r => f t + sumf f r end.
+Lemma sumf_upd f : forall l i t t', nth_error l i = Some t -> sumf f (upd l i t') + f t = sumf f l + f t'.
+Proof.
+  induction l as [|h l IH]; intros [|i] t t' H; simpl in *; try discriminate.
+  - inversion H; subst. lia.
+  - specialize (IH i t t' H). lia.
+Qed.
+Lemma sumf_zero f l : (forall t, In t l -> f t = 0) -> sumf f l = 0.
+Proof.
+  induction l as [|h l IH]; intros H; simpl; auto.
+  rewrite (H h) by (simpl; auto). rewrite IH; auto. intros; apply H; simpl; auto.
+Qed.
+Lemma sumf_pos f l : sumf f l > 0 -> exists i t, nth_error l i = Some t /\ f t > 0.
+Proof.
+  induction l as [|h l IH]; simpl; intros H; [lia|].
+  destruct (f h) eqn:E.
+  - destruct IH as (i & t & Hn & Hf); [lia|]. exists (S i), t. auto.
+  - exists 0, h. simpl. split; auto. lia.
+Qed.
+Lemma sumf_ge f l i t : nth_error l i = Some t -> f t <= sumf f l.
+Proof. revert i; induction l as [|h l IH]; intros [|i] H; simpl in *; try discriminate. inversion H; subst; lia. specialize (IH _ H); lia. Qed.
+
+(* ------------------------------------------------------------------ FIFO: holds for ANY programs *)
+Lemma exec_fifo P i c s s' : exec P i c s = Some s' ->
+  delivered s ++ q s = pushed s -> delivered s' ++ q s' = pushed s'.
+Proof.
+  unfold exec. intros H F.
+  repeat match type of H with
+         | context [match ?x with _ => _ end] => destruct x eqn:?; try discriminate
+         | context [if ?x then _ else _] => destruct x eqn:?; try discriminate
+         end;
+  inversion H; subst; clear H; cbn [q delivered pushed]; auto;
+  try (rewrite app_assoc, F; reflexivity);
+  try (match goal with E : q s = _ :: _ |- _ => rewrite E in F end; rewrite <- app_assoc; exact F);
+  try (rewrite <- F, <- !app_assoc; reflexivity).
+Qed.
+
+Theorem reach_fifo P n sc s : reach P (init n sc) s -> delivered s ++ q s = pushed s.
+Proof.
+  induction 1 as [|s s' R IH [i [c E]]]; [reflexivity|]. eapply exec_fifo; eauto.
+Qed.
